@@ -123,4 +123,10 @@ def fingerprint_url(url, unsplit=True, strip_suffix=False, platform_aware=False)
     if not unsplit:
         return result
 
-    return urlunsplit(result)[2:]
+    result = urlunsplit(result)
+
+    # NOTE: there is no leading '//' to drop when the netloc is empty
+    if result.startswith("//"):
+        return result[2:]
+
+    return result
